@@ -87,7 +87,7 @@ def horizon(tree):
         if t in ("Choose", "Allocation"):
             h = max(h, n["start"] + n["duration"])
         elif t == "WindowedChoose":
-            h = max(h, n["end"] + 2 * n["duration"] + 3)
+            h = max(h, n["end"] + 2 + n["duration"])  # latest start is the next multiple of g <= 3 after `end`
         elif t == "MalleableChoose":
             h = max(h, n["end"] + n["granularity"])
     return h + 1
@@ -150,15 +150,30 @@ def _intval(v, what):
 
 
 def tla_rec(rid, tree, ti, mi, x, rb):
-    name2leaf = {n["name"]: i + 1 for i, n in enumerate(tree["nodes"]) if n["type"] in ("Choose", "WindowedChoose", "MalleableChoose")}
+    # which leaf produced a reported placement?  Task names are shared by the options of a
+    # task, so match the placement object against the ones the leaves report for themselves.
+    named = {}
+    for i, n in enumerate(tree["nodes"]):
+        if n["type"] in ("Choose", "WindowedChoose", "MalleableChoose"):
+            named.setdefault(n["name"], []).append((i + 1, n["id"]))
     pl = []
     root = rb["root"] or {"placements": {}, "utility": None}
     for name, p in root["placements"].items():
         if not p["placed"]:
             continue
+        cands = named.get(name, [])
+        leaf = 0
+        if len(cands) == 1:
+            leaf = cands[0][0]
+        else:
+            for li, nid in cands:
+                own = (rb["nodes"].get(nid) or {}).get("placements", {}).get(name)
+                if own == p:
+                    leaf = li
+                    break
         pl.append(
             {
-                "leaf": name2leaf.get(name, 0),
+                "leaf": leaf,
                 "start": -1 if p["start"] is None else _intval(p["start"], "placement start"),
                 "end": -1 if p["end"] is None else _intval(p["end"], "placement end"),
                 "alloc": [[int(a), int(b), int(c)] for a, b, c in p["alloc"]],
@@ -212,19 +227,61 @@ def shape(tree, nid=None, depth=99, seen=None):
 
 
 _NODE_RE = re.compile(r"node \|-> (\d+)")
+_BAD_RE = re.compile(r"bad \|-> \{([^}]*)\}")
+_KIND_RE = re.compile(r'kind \|-> "([^"]*)"')
 
 
-def finding_key(clause, tree, detail_text, g, mask):
+def lt_shapes(tree):
+    """The orderings present in a tree, e.g. 'Lt(A,Max)|Lt(Max,Max)' (the top level if none)."""
+    out = sorted({shape(tree, n["id"], depth=1) for n in tree["nodes"] if n["type"] == "LessThan"})
+    return "|".join(out) if out else shape(tree, depth=1)
+
+
+_USERS_RE = re.compile(r"users \|-> \{([^}]*)\}")
+_BEST_RE = re.compile(r"best \|-> (-?\d+), max \|-> (-?\d+), feasible \|-> (\d)")
+
+
+def where_of(tree, detail_text):
+    """Name the place of a failing clause (types only, no parameters): the local shape of the
+    node TLC points at; the kinds of the leaves that overfill a capacity cell; for a tree-level
+    clause the direction of the mismatch and the orderings in the tree."""
+    u = _USERS_RE.search(detail_text or "")
+    if u:
+        kinds = sorted(shape(tree, tree["nodes"][int(i) - 1]["id"], depth=0) for i in re.findall(r"\d+", u.group(1)))
+        return "+".join(kinds)
+    b = _BEST_RE.search(detail_text or "")
+    if b:
+        best, mx, feas = (int(x) for x in b.groups())
+        direction = "infeasible" if feas == 0 else ("higher" if mx > best else "lower")
+        return f"{direction}:{lt_shapes(tree)}"
     m = _NODE_RE.search(detail_text or "")
-    where = ""
     if m:
         i = int(m.group(1))
         if 1 <= i <= len(tree["nodes"]):
-            where = shape(tree, tree["nodes"][i - 1]["id"], depth=2)
-    if not where:
-        where = shape(tree)
-    cfg = ("g1" if g == 1 else "coarse") + ("" if mask == 0 else "+" + "+".join(_mask_passes(mask)))
-    return f"{clause}:{where}:{cfg}"
+            w = shape(tree, tree["nodes"][i - 1]["id"], depth=2)
+            b = _BAD_RE.search(detail_text)
+            if b:
+                w += "/" + "+".join(sorted(x.strip().strip('"') for x in b.group(1).split(",") if x.strip()))
+            else:
+                k = _KIND_RE.search(detail_text)
+                if k:
+                    w += "/" + k.group(1).replace(" ", "_")
+            return w
+    return shape(tree)
+
+
+def cfg_label(g, mask):
+    return ("g1" if g == 1 else "coarse") + ("" if mask == 0 else "+" + "+".join(_mask_passes(mask)))
+
+
+def finding_key(clause, where, failing_cfgs):
+    """Stable key of a finding: clause + place; the configuration is part of the key only when
+    the plain configuration (g=1, no passes) of the same tree does not fail the same way."""
+    cfgs = sorted(failing_cfgs, key=lambda c: (c[0] != 1, c[1], c[0]))
+    if (1, 0) in failing_cfgs:
+        return f"{clause}:{where}"
+    g, mask = cfgs[0]
+    return f"{clause}:{where}:{cfg_label(g, mask)}"
 
 
 # ---------------------------------------------------------------------------
@@ -274,6 +331,8 @@ def _chunk_in(ci, trees, tier, cfg, binary, res, scratch):
         if "error" in out:
             inst["error"] = out["error"]
             _bump(ex["compile_errors"], f"{out['error']['kind']}@{out['error']['stage']}")
+            if inst["g"] == 1 and inst["mask"] == 0:
+                ex.setdefault("uncompilable_trees", []).append({"tree": c20_gen.sexpr(tree), "now": tree["now"], "error": out["error"]["what"][:200]})
             continue
         ex["instances"] += 1
         m = out["model"]
@@ -283,7 +342,10 @@ def _chunk_in(ci, trees, tier, cfg, binary, res, scratch):
         tv = sorted(c20_solve.time_vars(m))
         dec = [i for i in range(len(nm["vars"])) if i not in set(tv)]
         tcap = 2 * c20_solve.magnitude(nm) + 8
-        mhash = hashlib.sha1(json.dumps(tla_model(nm), sort_keys=True).encode()).hexdigest()
+        anon = tla_model(nm)
+        for c_ in anon["cons"]:
+            c_.pop("name")  # WindowedChoose puts a random uuid into its names
+        mhash = hashlib.sha1(json.dumps(anon, sort_keys=True).encode()).hexdigest()
         inst["mhash"] = mhash
         # identical active model as an earlier instance of the same tree -> same solution set
         twin = next((j for j in insts if j is not inst and j.get("mhash") == mhash and j["ti"] == inst["ti"] and "sols" in j), None)
@@ -364,14 +426,18 @@ def _chunk_in(ci, trees, tier, cfg, binary, res, scratch):
             # a pass must not turn an error into a model either way; nothing to compare
             continue
         runs = []
+        broken = sorted([i for i in mine if "error" in i], key=lambda i: (i["g"] != 1, i["mask"], i["g"]))
+        for n_, i in enumerate(broken):
+            first = broken[0]
+            res.violate(
+                "C20.pass_invariant" if i["g"] == 1 else "C20.coarse_le",
+                f"{c20_gen.sexpr(tree)} (partitions={[p['quantity'] for p in tree['partitions']]}, now={tree['now']}) compiles at discretisation 1 without passes, "
+                f"but with g={i['g']} passes={_mask_passes(i['mask'])} the library ends in {i['error']['kind']}: {i['error']['what'][:140]}",
+                _detail(tree, i, None, None, "exception " + json.dumps(i["error"])),
+                key=f"compile-{first['error']['kind']}:{lt_shapes(tree)}",
+            )
         for i in mine:
             if "error" in i:
-                res.violate(
-                    "C20.pass_invariant" if i["g"] == 1 else "C20.coarse_le",
-                    f"the tree compiles without passes at discretisation 1 but {i['error']['kind']} is raised with g={i['g']} passes={_mask_passes(i['mask'])}: {i['error']['what'][:140]}",
-                    _detail(tree, i, None, None, "exception"),
-                    key=f"compile-exception:{i['error']['kind']}:{shape(tree)}:{'g1' if i['g']==1 else 'coarse'}+{'+'.join(_mask_passes(i['mask']))}",
-                )
                 continue
             fine = next((j for j in mine if j["g"] == 1 and j["mask"] == i["mask"] and "error" not in j), None)
             run = {
@@ -404,6 +470,7 @@ def _chunk_in(ci, trees, tier, cfg, binary, res, scratch):
     res.traces_validated += len(batch["recs"])
     # ---- 5. verdicts
     bests = {}
+    flags, failing = [], {}
     lines = _checker_lines(r.stdout)
     if sum(1 for l in lines if l.startswith("@@BEST ")) != len(batch["sums"]) or not any(l.startswith("@@TALLY ") for l in lines):
         raise tlc.TLCMachineryError(f"Strl batch {ci}: checker output incomplete\n{r.stdout[-2000:]}")
@@ -425,25 +492,24 @@ def _chunk_in(ci, trees, tier, cfg, binary, res, scratch):
         _bump(ex["clause_flags"], clause)
         if rid in rec_of:
             inst, x, rb = rec_of[rid]
-            tree = trees[inst["ti"]]
-            res.violate(
-                clause,
-                f"{clause} fails for a solution of the model compiled from {c20_gen.sexpr(tree)} (g={inst['g']}, passes={_mask_passes(inst['mask'])}): {dtext[:200]}",
-                _detail(tree, inst, x, rb, dtext),
-                key=finding_key(clause, tree, dtext, inst["g"], inst["mask"]),
-            )
         elif rid in run_of:
-            inst = run_of[rid]
-            tree = trees[inst["ti"]]
-            res.violate(
-                clause,
-                f"{clause} fails for {c20_gen.sexpr(tree)} (g={inst['g']}, passes={_mask_passes(inst['mask'])}): {dtext[:200]}",
-                _detail(tree, inst, None, None, dtext),
-                key=finding_key(clause, tree, "", inst["g"], inst["mask"]),
-            )
+            inst, x, rb = run_of[rid], None, None
         else:
             raise tlc.TLCMachineryError(f"checker line for unknown record: {line}")
-    ex.setdefault("best_values", {}).update({})
+        tree = trees[inst["ti"]]
+        where = where_of(tree, dtext)
+        group = "best" if clause in ("C20.best_eq", "C20.pass_invariant") else clause
+        flags.append((inst, x, rb, clause, dtext, where, group))
+        failing.setdefault((inst["ti"], group, where), set()).add((inst["g"], inst["mask"]))
+    for inst, x, rb, clause, dtext, where, group in flags:
+        tree = trees[inst["ti"]]
+        res.violate(
+            clause,
+            f"{clause} fails for {'a solution of the model compiled from ' if x is not None else ''}{c20_gen.sexpr(tree)} "
+            f"(partitions={[p['quantity'] for p in tree['partitions']]}, now={tree['now']}, g={inst['g']}, passes={_mask_passes(inst['mask'])}): {dtext[:220]}",
+            _detail(tree, inst, x, rb, dtext),
+            key=finding_key(clause, where, failing[(inst["ti"], group, where)]),
+        )
     # samples: first tree of the chunk with its optimum
     for t in trees[:1]:
         mine = [i for i in insts if i["ti"] == 0 and "sols" in i]
@@ -456,6 +522,19 @@ def _chunk_in(ci, trees, tier, cfg, binary, res, scratch):
                     "runs": [{"g": i["g"], "passes": _mask_passes(i["mask"]), "max": i["max"], "solutions": len(i["sols"]), "exhaustive": i["exhausted"]} for i in mine],
                 }
             )
+
+
+def _merge_extra(dst, src):
+    """Sum counters (recursively), concatenate lists."""
+    for k, v in src.items():
+        if isinstance(v, dict):
+            _merge_extra(dst.setdefault(k, {}), v)
+        elif isinstance(v, list):
+            dst.setdefault(k, []).extend(v)
+        elif isinstance(v, (int, float)) and not isinstance(v, bool):
+            dst[k] = dst.get(k, 0) + v
+        else:
+            dst[k] = v
 
 
 def _checker_lines(stdout):
@@ -517,7 +596,13 @@ def run(tier: str) -> CheckResult:
     chunks = [trees[i : i + cfg["chunk"]] for i in range(0, len(trees), cfg["chunk"])]
     parts = parallel(_chunk, [(ci, ch, tier, binary) for ci, ch in enumerate(chunks)], procs=cfg["procs"])
     for p in parts:
-        res.merge(p)
+        res.states += p.states
+        res.transitions += p.transitions
+        res.traces_validated += p.traces_validated
+        res.samples += p.samples
+        res.violations += p.violations
+        res.notes += [n for n in p.notes if n not in res.notes]
+        _merge_extra(res.extra, p.extra)
     # keep the evidence readable: aggregate the per-batch TLC runs
     runs = res.extra.pop("tlc_runs", [])
     res.extra["tlc"] = {
